@@ -217,7 +217,14 @@ def record(setup, nf, seed, tmpdir, calls=None, length=None, fit_train=True):
         except Exception as ex:                # not a reported refusal: recorded as it is, the specification has no such outcome
             out = type(ex).__name__
             a["error"] = repr(ex)[:300]
-        st = project(world.observe(), canon)
+        try:
+            st = project(world.observe(), canon)
+        except common.MachineryError:
+            raise
+        except Exception as ex:                # e.g. a file whose "rbm_am" entry is no state dict: no state of the specification
+            a["error"] = (a.get("error", "") + " the world could not be projected after this call: %r" % (ex,))[:400]
+            out += "+unobservable"
+            st = copy.deepcopy(st)
         line["ev"].append(dict(a, out=out, **st))
         if "error" in a:
             break
@@ -315,8 +322,9 @@ def validate(lines, timeout=1500):
             res, out = futs[g].result()
             for i, v in zip(groups[g], out or [None] * len(groups[g])):
                 verdicts[i] = v
-            runs.append((res, "TracePersist.tla NM=%d NF=%d (%d traces, %d calls)"
-                         % (g[0], g[1], len(groups[g]), sum(len(lines[i]["ev"]) for i in groups[g]))))
+            real = [i for i in groups[g] if not lines[i].get("control")]
+            runs.append((res, "TracePersist.tla NM=%d NF=%d (%d recorded histories, %d calls; %d corrupted copies as controls)"
+                         % (g[0], g[1], len(real), sum(len(lines[i]["ev"]) for i in real), len(groups[g]) - len(real))))
     return verdicts, runs
 
 
@@ -346,6 +354,7 @@ def controls(line):
 
     def add(what, n, edit):
         c = copy.deepcopy(line)
+        c["control"] = what
         edit(c["ev"][n], _prev(c, n))
         out.append((what, c, n + 1))
 
@@ -441,7 +450,8 @@ def report(chk, line, v, key="trace"):
     else:
         ev = line["ev"][n]
         op, typ, before = ev["op"], _state_type(line, ev), _prev(line, n)
-    calls = [pr.call_text(dict(e)) for e in line["ev"][:max(n, 0) + 1]]
+    calls = [pr.call_text(dict(e, out="ok")) + ("   # reported: " + e["out"] if e["out"] != "ok" else "")
+             for e in line["ev"][:max(n, 0) + 1]]
     chk.violation("%s:rejected:%s:%s" % (key, op, typ),
                   dict(setup=line["setup"], nm=line["nm"], nf=line["nf"], seed=line["seed"], fit_train=line["fit_train"],
                        calls=calls, matched_prefix=v["matched"], of=v["need"],
@@ -466,28 +476,15 @@ def histories(tier, seed, tmpdir):
     return lines
 
 
-def phase(chk, tier, seed, tmpdir):
-    """code -> spec phase of C11.  Returns the number of accepted real traces."""
-    d = os.path.join(tmpdir, "trace")
-    os.makedirs(d, exist_ok=True)
-    lines = histories(tier, seed, d)
-    if len(lines[0]["ev"]) == len(SCRIPT) and not chk.violations:
-        ctl = controls(lines[0])
-    else:
-        try:                                        # a broken implementation may cut the scripted history short
-            ctl = controls(lines[0])
-        except (common.MachineryError, KeyError, IndexError):
-            ctl = []
-    verdicts, runs = validate(lines + [c for _, c, _ in ctl], timeout=1500 if tier == "thorough" else 600)
-    for res, label in runs:
-        chk.add_tlc(res, label)
-        if res.violation:
-            chk.violation("trace:invariant:" + str(res.violation)[:80], dict(tlc=res.raw[-4000:]))
+def _judge(chk, lines, verdicts, key="trace"):
+    """accepted real traces are counted, rejected ones become violations; returns (accepted, ops, exercised)"""
     total = dict(calls=0, restore=0, reshape=0, udict_restore=0, refused=0, overwrite=0, stale_src=0, cross_model=0)
     ops, accepted = {}, 0
-    for i, (ln, v) in enumerate(zip(lines, verdicts)):
+    for ln, v in zip(lines, verdicts):
+        if v is None:                               # its TLC run ended in a violated property of the specification
+            continue
         if not v["accepted"]:
-            report(chk, ln, v)
+            report(chk, ln, v, key)
             continue
         accepted += 1
         chk.traces += 1
@@ -497,19 +494,51 @@ def phase(chk, tier, seed, tmpdir):
         for e in ln["ev"]:
             ops[e["op"]] = ops.get(e["op"], 0) + 1
         if eff["restore"] or eff["reshape"] or eff["udict_restore"] or eff["refused"] or eff["stale_src"]:
-            chk.nontriv(("trace", ln["nm"], ln["nf"], ln["seed"]))
-    real_ok = accepted == len(lines)
-    for (what, _, at), v in zip(ctl, verdicts[len(lines):]):
-        ok = (not v["accepted"]) and v["matched"] == at
-        if ok or real_ok:
-            chk.control(ok, what + (" (matched %d of %d, corrupted item %d)" % (v["matched"], v["need"], at)))
-        else:                                       # the donor history itself is not a behaviour of the specification
+            chk.nontriv((key, ln["nm"], ln["nf"], ln["seed"]))
+    return accepted, ops, total
+
+
+def phase(chk, tier, seed, tmpdir):
+    """code -> spec phase of C11.  Returns the number of accepted real traces."""
+    d = os.path.join(tmpdir, "trace")
+    os.makedirs(d, exist_ok=True)
+    lines = histories(tier, seed, d)
+    try:
+        ctl = controls(lines[0])
+    except (common.MachineryError, KeyError, IndexError):
+        ctl = None                                  # judged below: legitimate only when the scripted history itself is rejected
+    verdicts, runs = validate(lines + [c for _, c, _ in ctl or []], timeout=1500 if tier == "thorough" else 600)
+    for res, label in runs:
+        chk.add_tlc(res, label)
+        if res.violation:
+            chk.violation("trace:spec-property:" + str(res.violation)[:80],
+                          dict(note="an invariant / action property of Persist.tla fails on a prefix of a recorded history that "
+                                    "TracePersist accepted step by step", run=label, tlc=res.raw[-4000:]))
+    accepted, ops, total = _judge(chk, lines, verdicts[:len(lines)])
+    scripted_ok = verdicts[0] is not None and verdicts[0]["accepted"]
+    if ctl is None and scripted_ok:
+        raise common.MachineryError("the scripted history was accepted but offers no event for some negative control")
+    for (what, _, at), v in zip(ctl or [], verdicts[len(lines):]):
+        ok = v is not None and (not v["accepted"]) and v["matched"] == at
+        if ok or scripted_ok:
+            chk.control(ok, what + ("" if v is None else " (matched %d of %d items, corrupted item %d)" % (v["matched"], v["need"], at)))
+        else:                                       # the donor history itself is no behaviour of the specification
             chk.extra.setdefault("controls_inconclusive", []).append(what)
-    chk.extra["trace_phase"] = dict(histories=len(lines), accepted=accepted, ops=ops, exercised=total,
-                                    groups=sorted({(ln["nm"], ln["nf"]) for ln in lines}))
-    if lines:
-        ln = lines[1] if len(lines) > 1 else lines[0]
-        chk.sample(dict(trace_setup=ln["setup"], nf=ln["nf"],
-                        calls=[e["op"] + "(%s)" % ",".join(str(x) for x in (e["m"], e["f"], e["k"]) if x not in (0, ""))
-                               + ("!" if e["out"] != "ok" else "") for e in ln["ev"]]), limit=8)
+    chk.extra["trace_phase"] = dict(histories=len(lines), accepted=accepted, calls=sum(len(ln["ev"]) for ln in lines), ops=ops,
+                                    exercised=total, batches=sorted({"NM=%d NF=%d" % (ln["nm"], ln["nf"]) for ln in lines}))
+    ln = lines[min(1, len(lines) - 1)]
+    chk.sample(dict(trace_setup=ln["setup"], nf=ln["nf"],
+                    calls=[e["op"] + "(%s)" % ",".join(str(x) for x in (e["m"], e["f"], e["k"]) if x not in (0, ""))
+                           + ("!" if e["out"] != "ok" else "") for e in ln["ev"]]), limit=8)
     return accepted
+
+
+def replay(chk, det, tmpdir):
+    """./check C11 --replay of a `trace:rejected:*` record: make the recorded calls again on a new world built from the
+    recorded setup and seed, and validate that history."""
+    t = det["trace"]
+    d = os.path.join(tmpdir, "trace")
+    os.makedirs(d, exist_ok=True)
+    line = record(t["setup"], t["nf"], det["seed"], d, calls=t["labels"], fit_train=det.get("fit_train", True))
+    verdicts, _ = validate([line], timeout=300)
+    _judge(chk, [line], verdicts)
